@@ -5,8 +5,8 @@
 //	       performed plus what every observer saw (code -> spec: validated by spec/TcpConnTrace.tla).
 //	       -prom: the handler also reports to the real prometheus.NewServiceMetrics (private registry); the gathered
 //	       totals are written next to the recorded ones (out + ".prom.json").
-//	stress -n 200 -out totals.json   many connections at once; totals of the recording metrics, of the Prometheus
-//	       collectors and of the harness' own sockets
+//	       -own-waits: before an environment action of connection c only c's observations are waited for (used for
+//	       behaviours merged from many single-connection behaviours: hundreds of connections open at once)
 //	c18 -family F -out res.json      crafted authenticated inputs / target behaviours / shutdown orders with leak accounting
 //
 // The driver never judges a property; it only records (exit 3 = harness failure).
@@ -24,7 +24,7 @@ import (
 
 func main() {
 	if len(os.Args) < 2 {
-		hx.Fatal("usage: tcpconn replay|stress|c18 ...")
+		hx.Fatal("usage: tcpconn replay|c18 ...")
 	}
 	mode := os.Args[1]
 	fs := flag.NewFlagSet(mode, flag.ExitOnError)
@@ -38,7 +38,7 @@ func main() {
 	hangMs := fs.Int("hang-ms", 4000, "how long to wait for handlers to return at the end")
 	par := fs.Int("par", 8, "behaviours executed concurrently")
 	prom := fs.Bool("prom", false, "also report to the real Prometheus collectors")
-	n := fs.Int("n", 200, "stress: number of concurrent connections")
+	ownWaits := fs.Bool("own-waits", false, "wait only for observations of the acting connection")
 	family := fs.String("family", "", "c18: scenario family")
 	nkeys := fs.Int("nkeys", 0, "key list size (0 = seed-chosen from 1,3,100)")
 	cipher := fs.String("cipher", "", "force one cipher for all keys")
@@ -50,7 +50,7 @@ func main() {
 		var behs []behaviour
 		hx.ReadJSON(*in, &behs)
 		opt := options{seed: *seed, timeoutMs: *timeoutMs, unitMs: *unitMs, awaitMs: *awaitMs, holdMs: *holdMs, hangMs: *hangMs,
-			nkeys: *nkeys, cipher: *cipher}
+			nkeys: *nkeys, cipher: *cipher, ownWaits: *ownWaits}
 		var pm *promSink
 		if *prom {
 			pm = newPromSink()
@@ -93,8 +93,6 @@ func main() {
 			}
 			hx.WriteJSON(*out+".prom.json", map[string]any{"gathered": pm.gather(), "recorded": recordedTotals(all)})
 		}
-	case "stress":
-		runStress(*n, *seed, *out)
 	case "c18":
 		runC18(*family, *seed, *out)
 	default:
